@@ -88,6 +88,10 @@ def writes(it, kinds=('setattr', 'setitem', 'augassign', 'mutcall', 'delete')):
             st = e['base']
         elif e['kind'] == 'augassign':
             st = e['target']
+            v = e.get('value')
+            if v is not None and (v[0] == 'fstr' or (
+                    v[0] == 'const' and isinstance(v[1], (str, bytes)))):
+                continue       # strings are immutable: a rebinding, not a store
         else:
             st = e['target']
         rs = roots(st)
